@@ -186,6 +186,10 @@ pub struct PGen<'a> {
     /// generate prefix `not` on binary clauses (F1 territory)
     pub prefneg_binary: bool,
     pub wide: bool,
+    /// parameterised rules callable from here: (name, arity)
+    pub prules: Vec<(String, usize)>,
+    /// unique custom messages on clauses (C09)
+    pub messages: bool,
 }
 
 fn subvalues(v: &V, out: &mut Vec<V>) {
@@ -202,7 +206,7 @@ impl<'a> PGen<'a> {
         let mut dv = vec![];
         subvalues(doc, &mut dv);
         dv.remove(0);
-        PGen { sz, doc, doc_vals: dv, refs: vec![], counter: 0, prefneg_binary: true, wide: false }
+        PGen { sz, doc, doc_vals: dv, refs: vec![], counter: 0, prefneg_binary: true, wide: false, prules: vec![], messages: false }
     }
 
     fn fresh(&mut self, p: &str) -> String {
@@ -447,10 +451,47 @@ impl<'a> PGen<'a> {
             if rc != RefCtx::Inner && !self.refs.is_empty() { 15 } else { 0 },
             if can_nest { 20 } else { 0 },
             if can_nest { 10 } else { 0 },
+            if self.wide && !self.prules.is_empty() { 8 } else { 0 },
+            if self.wide && rc == RefCtx::RuleBody && can_nest { 10 } else { 0 },
         ];
         match u.weighted(&w) {
-            0 => Item::Clause(self.gen_clause(u, ctx, depth, vars, false)),
+            0 => {
+                let mut c = self.gen_clause(u, ctx, depth, vars, false);
+                if self.messages {
+                    c.msg = Some(self.fresh("m"));
+                }
+                Item::Clause(c)
+            }
             1 => self.gen_ref(u),
+            4 => {
+                let (name, arity) = self.prules[u.below(self.prules.len())].clone();
+                let mut args = vec![];
+                for _ in 0..arity {
+                    if u.chance(1, 3) {
+                        let dv = self.doc_vals.clone();
+                        args.push(Expr::Lit(gen_lit(u, &dv)));
+                    } else {
+                        let q = self.gen_query(u, ctx, &Vars::default(), self.sz.nest, true);
+                        args.push(Expr::Query { some: false, q });
+                    }
+                }
+                Item::PCall { neg: u.chance(1, 4), name, args, msg: None }
+            }
+            5 => {
+                let types = doc_types(self.doc);
+                let ty = if !types.is_empty() && u.chance(4, 5) { types[u.below(types.len())].clone() } else { "AWS::No::Such".to_string() };
+                let res_ctx: Option<V> = self.doc.get("Resources").and_then(|r| match r {
+                    V::Map(m) => m.iter().map(|(_, v)| v).find(|v| v.get("Type") == Some(&V::Str(ty.clone()))).cloned(),
+                    _ => None,
+                });
+                let when = if u.chance(1, 4) { Some(self.gen_cond(u, ctx, depth, vars)) } else { None };
+                let (lets, lv) = if u.chance(1, 4) { self.gen_lets(u, res_ctx.as_ref(), depth, "tv") } else { (vec![], Vars::default()) };
+                let mut inner = vars.clone();
+                inner.qvars.extend(lv.qvars);
+                inner.lvars.extend(lv.lvars);
+                let body = self.gen_cnf(u, res_ctx.as_ref(), depth + 1, &inner, RefCtx::Inner);
+                Item::TypeBlock { ty, when, lets, body }
+            }
             2 => {
                 let q = self.gen_query(u, ctx, vars, depth, false);
                 // context for the body: a member the query selects (when it can be sampled)
@@ -515,6 +556,91 @@ pub fn sample_ctx(ctx: &V, parts: &[Part]) -> Option<V> {
         };
     }
     Some(v)
+}
+
+pub fn doc_types(doc: &V) -> Vec<String> {
+    let mut out = vec![];
+    if let Some(V::Map(m)) = doc.get("Resources") {
+        for (_, r) in m {
+            if let Some(V::Str(t)) = r.get("Type") {
+                if !out.contains(t) {
+                    out.push(t.clone());
+                }
+            }
+        }
+    }
+    out
+}
+
+pub const CFN_TYPES: [&str; 3] = ["AWS::S3::Bucket", "AWS::EC2::Volume", "AWS::X::Y"];
+
+/// document with an additional CloudFormation-shaped `Resources` section
+pub fn gen_cfn_doc(u: &mut Choices, sz: &Size) -> V {
+    let mut m = match gen_doc(u, sz) {
+        V::Map(m) => m,
+        _ => unreachable!(),
+    };
+    let n = u.range(1, 3);
+    let mut res = vec![];
+    for i in 0..n {
+        let ty = CFN_TYPES[u.below(CFN_TYPES.len())];
+        let props = gen_map(u, 1, sz, 1);
+        res.push((format!("res{}", i), V::Map(vec![("Type".into(), V::s(ty)), ("Properties".into(), props)])));
+    }
+    m.retain(|(k, _)| k != "Resources");
+    m.push(("Resources".into(), V::Map(res)));
+    V::Map(m)
+}
+
+/// A wide-fragment rules file (core + type blocks + parameterised rules + optional messages).
+pub fn gen_wide_file(u: &mut Choices, doc: &V, sz: Size, messages: bool) -> File {
+    let sz = scaled(u, sz);
+    let mut g = PGen::new(doc, sz);
+    g.wide = true;
+    g.messages = messages;
+    // parameterised rules first (their bodies may not call each other: no recursion)
+    let np = u.below(3);
+    let mut prules = vec![];
+    for i in 0..np {
+        let arity = u.range(1, 2);
+        let params: Vec<String> = (0..arity).map(|j| format!("p{}x{}", i, j)).collect();
+        let vars = Vars { qvars: params.clone(), lvars: vec![] };
+        let save = g.sz;
+        g.sz.nest = 1;
+        g.sz.lines = 2;
+        let mut body = vec![];
+        for _ in 0..u.range(1, 2) {
+            // clauses over the parameters
+            let mut c = g.gen_clause(u, None, 1, &vars, false);
+            if !matches!(c.q.head, Head::Var(_)) {
+                c.q = Query { head: Head::Var(params[u.below(arity)].clone()), parts: vec![] };
+                // bare variable + `empty` tests the result set; keep it (documented exception)
+            }
+            if messages {
+                c.msg = Some(g.fresh("m"));
+            }
+            body.push(vec![Item::Clause(c)]);
+        }
+        g.sz = save;
+        prules.push(PRule { name: format!("pr{}", i), params, lets: vec![], body });
+    }
+    g.prules = prules.iter().map(|p| (p.name.clone(), p.params.len())).collect();
+    let (flets, fvars) = g.gen_lets(u, Some(doc), 0, "fv");
+    let n = u.range(1, sz.rules);
+    let names: Vec<String> = (0..n).map(|i| format!("r{}", i)).collect();
+    let ranks: Vec<usize> = (0..n).map(|_| u.below(1000)).collect();
+    let mut rules = vec![];
+    for i in 0..n {
+        g.refs = (0..n).filter(|j| (ranks[*j], *j) > (ranks[i], i)).map(|j| names[j].clone()).collect();
+        let (lets, lv) = if u.chance(2, 5) { g.gen_lets(u, Some(doc), 0, &format!("r{}v", i)) } else { (vec![], Vars::default()) };
+        let when = if u.chance(3, 10) { Some(g.gen_cond(u, Some(doc), 0, &fvars)) } else { None };
+        let mut vars = fvars.clone();
+        vars.qvars.extend(lv.qvars);
+        vars.lvars.extend(lv.lvars);
+        let body = g.gen_cnf(u, Some(doc), 0, &vars, RefCtx::RuleBody);
+        rules.push(Rule { name: names[i].clone(), when, lets, body });
+    }
+    File { lets: flets, prules, rules, default: vec![] }
 }
 
 /// A core-fragment rules file directed at `doc`.
